@@ -3,7 +3,7 @@ import ast
 import itertools
 
 from .. import labels as lb
-from ..core import AnalysisError, U, atoms, path_facts, paths_of, positional_params
+from ..core import AnalysisError, U, atoms, bind_call, path_facts, paths_of, positional_params
 from ..labels import L, ONE, Q, T, Interp, Obj, batch
 from ..registries import handlers, library, qtype_table
 
@@ -246,8 +246,52 @@ def route_guards(chk, routes, fns):
             e = p.end[1]
             site = f"{m.rel}:{p.end[2]}"
             t = U(e)
-            ok = (isinstance(e, ast.Call) and isinstance(e.func, ast.Attribute) and e.func.attr == "to" and [U(x) for x in e.args] == [f"{s}.dtype"]) or "torch._weight_int8pack_mm(" in t
-            chk.require("C07.R4", site, ok, f"{name}: result cast to the scale dtype last (`...{t[-40:]}`)", name, "result dtype", "float16/bfloat16 activations: the output comes back in float32 / int32")
+            ok = _has_scale_dtype(chk.repo, m, fn, e, s, 2)
+            if ok is None:
+                chk.unknown("C07.R4", site, f"{name}: whether `...{t[-50:]}` has the dtype of the scales is not decided (a helper whose results this rule does not follow)")
+            else:
+                chk.require("C07.R4", site, ok, f"{name}: result cast to the scale dtype last (`...{t[-40:]}`)", name, "result dtype", "float16/bfloat16 activations: the output comes back in float32 / int32")
+
+
+def _has_scale_dtype(repo, mi, fn, e, s, depth):
+    """Does the expression have the dtype of the scales `s`?  True / False / None (not decided).  Followed through shape-only methods, through a local bound
+    to an allocation with `dtype=s.dtype`, and through the return paths of a package helper that is handed the scales."""
+    t = U(e)
+    if isinstance(e, ast.Call) and isinstance(e.func, ast.Attribute) and e.func.attr == "to" and [U(x) for x in e.args] == [f"{s}.dtype"]:
+        return True
+    if "torch._weight_int8pack_mm(" in t:
+        return True
+    if isinstance(e, ast.Call) and isinstance(e.func, ast.Attribute) and e.func.attr in ("view", "reshape", "contiguous", "flatten", "squeeze", "unsqueeze"):
+        return _has_scale_dtype(repo, mi, fn, e.func.value, s, depth)
+    if isinstance(e, ast.Call) and U(e.func) in ("torch.empty", "torch.zeros", "torch.ones", "torch.full", "torch.empty_like", "torch.zeros_like"):
+        return any(k.arg == "dtype" and U(k.value) == f"{s}.dtype" for k in e.keywords)
+    if isinstance(e, ast.Call) and isinstance(e.func, ast.Name) and depth > 0:
+        r = repo.resolve(mi, e.func.id)
+        if r is not None and isinstance(r[1], ast.FunctionDef) and r[0].rel.startswith("optimum/"):
+            b = bind_call(r[1], e)
+            if b is None:
+                return None
+            ps_ = [k for k, v in b.items() if isinstance(v, ast.AST) and U(v) == s]
+            if len(ps_) != 1:
+                return None
+            rets = [x for x in ast.walk(r[1]) if isinstance(x, ast.Return) and x.value is not None]
+            if not rets:
+                return None
+            outs = []
+            for x in rets:
+                v = x.value
+                if isinstance(v, ast.Name):
+                    defs = [a.value for a in ast.walk(r[1]) if isinstance(a, ast.Assign) and any(isinstance(t_, ast.Name) and t_.id == v.id for t_ in a.targets)]
+                    outs.append(all(_has_scale_dtype(repo, r[0], r[1], d, ps_[0], depth - 1) for d in defs) if defs else None)
+                else:
+                    outs.append(_has_scale_dtype(repo, r[0], r[1], v, ps_[0], depth - 1))
+            if any(o is False for o in outs):
+                return False
+            return True if all(o is True for o in outs) else None
+        return None
+    if isinstance(e, (ast.Call, ast.Name, ast.Subscript)) and not (isinstance(e, ast.Call) and isinstance(e.func, ast.Attribute) and e.func.attr == "to"):
+        return None if isinstance(e, ast.Name) else False
+    return False
 
 
 def accumulation(chk, fns, rule="C07.R3"):
